@@ -27,6 +27,7 @@ U = 'pybufrkit/utils.py'
 E = 'pybufrkit/encoder.py'
 M = 'pybufrkit/mdquery.py'
 B = 'pybufrkit/bufr.py'
+T = 'pybufrkit/tables.py'
 Q = 'pybufrkit/dataquery.py'
 G = 'pybufrkit/decoder.py'
 K = 'pybufrkit/coder.py'
@@ -129,6 +130,18 @@ MUTS = [
     ('SH5', 'change', 'C16', D, "marker_descriptor_prefix.get(self.marker_id, 'M'),", "marker_descriptor_prefix.get(self.marker_id, 'X'),"),
     ('SH6', 'preserve', 'C16', D, "return 'A{:05d}'.format(self.id)", "return 'A' + '{:05d}'.format(self.id)"),
     ('SH7', 'unsupported', 'C01', D, "        return '{:06d}'.format(self.id)", "        return '%06d' % self.id"),
+    # mdquery.py MetadataQuerent.query (round 3)
+    ('SI1', 'change', 'C17', M, "if s.get_metadata('index') == section_index or section_index is None]", "if s.get_metadata('index') != section_index or section_index is None]"),
+    ('SI2', 'change', 'C17', M, "if parameter.name == metadata_name:", "if parameter.name != metadata_name:"),
+    ('SI3', 'change', 'C17', M, "return parameter.value", "return parameter.name"),
+    ('SI4', 'change', 'C17', M, "if s.get_metadata('index') == section_index or section_index is None]", "if s.get_metadata('index') == section_index]"),
+    ('SI5', 'preserve', 'C17', M, "if s.get_metadata('index') == section_index or section_index is None]", "if section_index is None or s.get_metadata('index') == section_index]"),
+    ('SI6', 'unsupported', 'C17', M, "for parameter in section:", "for parameter in list(section):"),
+    # tables.py dispatch tests of template building (round 3)
+    ('SJ1', 'change', 'C14', T, "        if id_ >= 300000:\n            descriptors.append(d.lookup(id_))", "        if id_ > 300000:\n            descriptors.append(d.lookup(id_))"),
+    ('SJ2', 'change', 'C14', T, "        if id_ % 1000 == 0:\n            return DelayedReplicationDescriptor(id_)", "        if id_ % 100 == 0:\n            return DelayedReplicationDescriptor(id_)"),
+    ('SJ3', 'change', 'C14', T, "        elif id_ >= 100000:\n            descriptor = r.lookup(id_)\n            if isinstance", "        elif id_ >= 110000:\n            descriptor = r.lookup(id_)\n            if isinstance"),
+    ('SJ4', 'preserve', 'C14', T, "        if id_ >= 300000:\n            descriptors.append(d.lookup(id_))", "        if 300000 <= id_:\n            descriptors.append(d.lookup(id_))"),
     # ---- stage D: the whole NodePathParser of dataquery.py (stateful class, C15_src_parse_eq) ----------------
     ('D1', 'change', 'C15', Q, "                if self.current_state == STATE_START_PARSING:\n                    self.current_state = STATE_START_SUBSET\n",
      "                if True:\n                    self.current_state = STATE_START_SUBSET\n"),
